@@ -796,6 +796,85 @@ def r13_6(chk, P, K):
            f'allocedp is set non-zero in {sorted(set(setters))}')
 
 
+def r13_12(chk, P):
+    chk.rule('R13.12', 'a set-up step that fills the owner slots of the info runs once: every function of vorbisenc.c that freezes the '
+             'staged set-up (stores a non-zero constant into set_in_stone) tests that flag first -- with the continuing edge of '
+             'every set_in_stone test removed, neither the freezing store nor any call that can reach an allocator is reachable '
+             'from the entry, and the refusing edge returns a negative code.  A second run would overwrite the map, mode, '
+             'residue and psy slots the first run filled; vorbis_info_clear frees each slot once')
+    n = 0
+    allocs = {'_ogg_malloc', '_ogg_calloc', '_ogg_realloc', 'malloc', 'calloc', 'realloc'}
+    reach_alloc = {}
+
+    def can_alloc(key):
+        if key not in reach_alloc:
+            reach_alloc[key] = False
+            for k in P.reachable([key]):
+                G = P.fn.get(k)
+                if G is not None and any(G.ex[c]['callee'].get('d') in allocs for c in G.calls()):
+                    reach_alloc[key] = True
+                    break
+        return reach_alloc[key]
+    for F in P.functions():
+        if not F.file.endswith('vorbisenc.c'):
+            continue
+        freezes = []
+        for e in F.nodes('assign'):
+            nd = F.ex[e]
+            l = F.ex[F.strip_casts(nd['c'][0])]
+            if nd['op'] == '=' and l['k'] == 'member' and l['field'] == 'set_in_stone' and (common.const_val(F, nd['c'][1]) or 0) != 0:
+                freezes.append(e)
+        if not freezes:
+            continue
+
+        def reads_flag(c):
+            return any(F.ex[x]['k'] == 'member' and F.ex[x]['field'] == 'set_in_stone' for x in F.walk(c))
+        tests = [(b, blk) for b, blk in F.blocks.items() if (blk.get('term') or {}).get('cond') is not None and reads_flag(blk['term']['cond'])
+                 and len(blk['succs']) == 2]
+        # which edge continues: the one from which a freezing store is reachable
+        def reach_from(b0, cut):
+            seen, st = set(), [b0]
+            while st:
+                b = st.pop()
+                if b is None or b in seen:
+                    continue
+                seen.add(b)
+                for i_, s_ in enumerate(F.blocks[b]['succs']):
+                    if (b, i_) in cut:
+                        continue
+                    st.append(s_)
+            return seen
+        fblocks = {F.pos[e][0] for e in freezes}
+        cut = set()
+        refusing = []
+        for b, blk in tests:
+            for i_, s_ in enumerate(blk['succs']):
+                if s_ is not None and reach_from(s_, set()) & fblocks:
+                    cut.add((b, i_))
+                else:
+                    refusing.append(s_)
+        seen = reach_from(F.entry, cut)
+        acalls = [c for c in F.calls() if any((not t.startswith(('ext:', 'cb:', 'unk:'))) and can_alloc(t) for t in P.call_targets(F, c))
+                  or F.ex[c]['callee'].get('d') in allocs]
+        bad_store = [e for e in freezes if F.pos[e][0] in seen]
+        bad_calls = [c for c in acalls if F.pos[c][0] in seen]
+        neg = True
+        for s_ in refusing:
+            for r in cfg.returns(F):
+                if s_ is not None and F.pos[r][0] in reach_from(s_, set()):
+                    v = common.const_val(F, F.ex[r]['c'][0]) if F.ex[r].get('c') else None
+                    if v is None or v >= 0:
+                        neg = False
+        ok = bool(tests) and not bad_store and not bad_calls and neg
+        n += 1
+        chk.ob('R13.12', F.name, 'freezing-step-runs-once', ok, F.where(freezes[0]),
+               f'{len(tests)} test(s) of set_in_stone guard the freezing store and all {len(acalls)} allocating calls; the refusing edge returns an error' if ok else
+               ('no test of set_in_stone' if not tests else 'the test does not guard ' +
+                (f'the allocating call on line {F.loc(bad_calls[0])}' if bad_calls else 'the freezing store' if bad_store else 'with an error return')) +
+               ': a second call of this step overwrites the owner slots the first call filled (the first allocations leak)')
+    return n
+
+
 def run(chk, P):
     K = k6.K6(P)
     res = r13_1(chk, P, K)
@@ -814,6 +893,8 @@ def run(chk, P):
     chk.floor('R13.9', 1)
     r13_10(chk, P, K)
     chk.floor('R13.10', 1)
+    r13_12(chk, P)
+    chk.floor('R13.12', 1)
     import typestate
     typestate.c13(chk, P)
     chk.floor('R13.11', 1)
